@@ -406,6 +406,10 @@ func c10Run(t *testing.T, sc Scenario, res *Result) {
 		calls := 0
 		how := pick(r, []string{"Skip", "FailNow", "SkipNow"})
 		at := r.between(1, 4)
+		inCleanup := mix(sc.Seed, 0x90e)%3 == 0
+		if inCleanup {
+			res.inc("goexit_from_inside_a_cleanup")
+		}
 		t.Run("goexit", func(s *testing.T) {
 			prop := func(rt *rapid.T) {
 				calls++
@@ -415,6 +419,22 @@ func c10Run(t *testing.T, sc Scenario, res *Result) {
 					rec.ctx(b, rt, "before goexit")
 					rec.register(b, rt, c10None, 0)
 					rec.register(b, rt, c10Ctx, 0)
+					if inCleanup {
+						// the goroutine is ended from INSIDE a cleanup function (the enclosing test is stopped there):
+						// the cleanup functions registered before it still have to run
+						rt.Cleanup(func() {
+							switch how {
+							case "Skip":
+								s.Skip("enclosing test skipped from inside a cleanup function")
+							case "SkipNow":
+								s.SkipNow()
+							default:
+								s.FailNow()
+							}
+						})
+						rec.register(b, rt, c10More, 0)
+						return
+					}
 					rec.register(b, rt, c10More, 0)
 					switch how {
 					case "Skip":
